@@ -80,6 +80,7 @@ def cond_after(text, anchor, what, nth=0, count=1):
 
 
 TOK = re.compile(r"""\s*(?:
+    (?P<uvar>UVAR)|
     (?P<var>VAR)|
     (?P<chr>'(?:\\.|[^\\'])')|
     (?P<hex>0[xX][0-9a-fA-F]+)|
@@ -90,7 +91,8 @@ TOK = re.compile(r"""\s*(?:
 
 def c_pred(expr, var, what):
     """python source of the C boolean expression `expr` over the char variable spelled `var`"""
-    e = expr.replace(var, 'VAR')
+    e = re.sub(r'\(\s*unsigned\s+char\s*\)\s*' + re.escape(var), 'UVAR', expr)
+    e = e.replace(var, 'VAR')
     out, i = [], 0
     e = e.strip()
     while i < len(e):
@@ -98,7 +100,9 @@ def c_pred(expr, var, what):
         if not m:
             raise TranslateError('%s: cannot tokenise %r' % (what, e[i:i + 30]))
         i = m.end()
-        if m.group('var'):
+        if m.group('uvar'):
+            out.append('(c&255)')
+        elif m.group('var'):
             out.append('c')
         elif m.group('chr'):
             out.append(str(c_unescape(m.group('chr')[1:-1])[0]))
@@ -113,7 +117,12 @@ def c_pred(expr, var, what):
     return ''.join(out).strip()
 
 
-def table(expr, var, what, signed, negate=False):
+ALT = []          # (name, table) evaluated with the other signedness of char
+
+
+def table(expr, var, what, signed, negate=False, _alt=True):
+    if _alt:
+        ALT.append(table(expr, var, what, not signed, negate, _alt=False))
     src = c_pred(expr, var, what)
     try:
         code = compile(src, what, 'eval')
@@ -158,6 +167,7 @@ def sysconsts():
 # ------------------------------------------------------------ the generator
 def gen_addr(repo):
     out = HEADER % 'lib/dns_helpers.c, qsmtpd/addrsyntax.c, qsmtpd/xtext.c, include/qdns.h, system headers (gcc -E)'
+    del ALT[:]
     i4, i6, signed = sysconsts()
     N = {}          # nat constants
     T = []          # (name, table, comment)
@@ -327,6 +337,10 @@ def gen_addr(repo):
         out += 'Definition %s : list N := %s.\n' % (k, coq_bytes(v))
     for name, t, comment in T:
         out += coq_table(name, t, comment)
+    if len(ALT) != len(T):
+        raise TranslateError('internal: alternative tables out of step')
+    for (name, t, comment), alt in zip(T, ALT):
+        out += coq_table(name + '_ALT', alt, 'the same expression where char is %s' % ('unsigned' if signed else 'signed'))
     out += '(* hexchar() as unsigned char, per input byte *)\nDefinition XT_HEXVAL : list N := %s.\n' % coq_bytes(hv)
     return out
 
